@@ -1,1 +1,5 @@
-import QrlewModel.Model.Intervals
+import QrlewModel.Props.C02
+import QrlewModel.Props.C03
+import QrlewModel.Props.C11
+import QrlewModel.Props.C13
+import QrlewModel.Props.C15
